@@ -10,7 +10,7 @@
    waits for process-wide quiescence: a call that has not returned then is parked for good). Not modelled:
    Go scheduler fairness, net.Conn deadlines (a Write blocked on a silent peer ends only with the connection). *)
 From Coq Require Import NArith List Bool.
-From LLRP Require Import Client.Types Client.Model Client.ModelX Client.InvC08 Client.InvC09 Client.C09Proofs Client.Handoff.
+From LLRP Require Import Client.Types Client.Model Client.ModelX Client.InvC08 Client.InvC09 Client.C09Proofs Client.Handoff Client.C09Flood.
 Import ListNotations.
 Open Scope N_scope.
 
@@ -136,6 +136,44 @@ Theorem C09_handoff_unbuffered_refuted :
     h_reader s = HAtSend /\ h_caller s = HLeft /\ forall e, hstep false s e = s.
 Proof. exact handoff_unbuffered_refuted. Qed.
 Print Assumptions C09_handoff_unbuffered_refuted.
+
+(* ---- the read loop never parks in a handler: keep-alive floods of any length ----
+   The reader may send keep-alives (and reports, and anything else) faster than the client can get its acknowledgements out —
+   in the extreme the peer reads nothing and the write loop sits in its first Write. [flood cfg fs s] reads ANY list of frames
+   [fs] (unbounded length), each followed by the loop's look at done. From a reading, open client: the read loop is reading
+   again after every frame, the ack queue never exceeds max(what it held, ack_cap), and Connect, the write loop, the closed
+   flag and the error history are untouched — so the end of the connection is still noticed (flood_then_eof: the loop reports
+   its error / waits for done after CloseConnectionResponse) and so is a local Close (flood_then_close: after Close the next
+   look at done returns). The ackHandler's non-blocking send (reader.go 864-869) is what [ack_enqueue] models; with a handler
+   that waits for room RFrame would have no successor with the reader back in its loop (checks/c09.py: flood families). *)
+Theorem C09_read_loop_never_parks_in_dispatch : forall cfg s f h,
+  reader s = RRead -> reader (step cfg s (RFrame f h)) = RTop.
+Proof. exact rframe_returns_to_loop. Qed.
+Print Assumptions C09_read_loop_never_parks_in_dispatch.
+
+Theorem C09_flood_keeps_reading : forall cfg fs s b,
+  reader s = RRead -> closed s = false -> (ack_cap <= b)%nat -> (length (ackq s) <= b)%nat ->
+  let s' := flood cfg fs s in
+  reader s' = RRead /\ closed s' = false /\ writer s' = writer s /\ phase s' = phase s /\ errs s' = errs s /\
+  (length (ackq s') <= b)%nat.
+Proof. exact flood_keeps_reading. Qed.
+Print Assumptions C09_flood_keeps_reading.
+
+Theorem C09_flood_then_eof : forall cfg fs s,
+  reader s = RRead -> closed s = false ->
+  let s' := step cfg (flood cfg fs s) (PeerEOF EofBoundary) in
+  (saw_close (flood cfg fs s) = false -> reader s' = RDead /\ errs s' = errs s ++ [ERead]) /\
+  (saw_close (flood cfg fs s) = true -> reader s' = RWaitDone).
+Proof. exact flood_then_eof. Qed.
+Print Assumptions C09_flood_then_eof.
+
+Theorem C09_flood_then_close : forall cfg fs s f h,
+  reader s = RRead -> closed s = false ->
+  let s1 := step cfg (flood cfg fs s) Close in
+  let s2 := step cfg (step cfg (step cfg s1 (RFrame f h)) RCheck) RSeeDone in
+  closed s1 = true /\ reader s2 = RExit.
+Proof. exact flood_then_close. Qed.
+Print Assumptions C09_flood_then_close.
 
 (* ---- "the serving call returns once the connection ends" ----
    FULL STATEMENT (enabledness): in every reachable state in which a loop has reported an error and Connect has
